@@ -75,7 +75,10 @@ class Put(BaseRequest[T]):
 
     def cancel(self):
         if not self.triggered:
-            self.resource.put_queue.remove(self)
+            try:
+                self.resource.put_queue.remove(self)
+            except ValueError:
+                pass  # cancelling is idempotent
 
 
 class Get(BaseRequest[T]):
@@ -91,7 +94,10 @@ class Get(BaseRequest[T]):
 
     def cancel(self):
         if not self.triggered:
-            self.resource.get_queue.remove(self)
+            try:
+                self.resource.get_queue.remove(self)
+            except ValueError:
+                pass  # cancelling is idempotent
 
 
 class BaseResource(Generic[T]):
